@@ -1,5 +1,6 @@
 import AasVerif.Lemmas.JsonSchemaLookup
 import AasVerif.Lemmas.JsonSchemaTighten
+import AasVerif.Lemmas.JsonSchemaSearchB
 /-!
 # C12 — JSON Schema enforces every inferred constraint
 
@@ -375,5 +376,27 @@ example : (match concreteDefinition leafC, inheritableDefinition rootC with
       -- the child's tightening (`len ≥ 2`, merged with the parent's `len ≤ 3`)
       validates twoDefs 12 s (.obj [(ascii "name", .str (ascii "a")), (modelTypeKey, .str (ascii "Leaf"))]) == some false
     | _, _ => false) = true := by decide
+
+/-! ## Patterns, in the denotational semantics -/
+
+/-- **`pattern_miss_rejected`, in the semantics.** A string in whose UTF-16 units one of the inferred
+patterns (parsed after the rewriting for UTF-16 engines) has NO match — no substring `b` of
+`Fix16.utf16 t = a ++ b ++ c` with `Retree.MUnion re a b c` — is rejected. -/
+theorem pattern_miss_rejected_semantic (defs : Defs) (cs : Cons) (ps : List Text) (p : Text) (re : Regex)
+    (s : Schema) (t : Text) (hp : cs.pats = some ps) (hmem : p ∈ ps) (hfix : fixPattern p = .ok re)
+    (hmiss : ¬ Search re (Fix16.utf16 t))
+    (h : defineType (.prim .str (some cs)) = .ok s) : ¬ Valid defs s (.str t) :=
+  pattern_miss_rejected defs cs ps p re s t hp hmem hfix ((searchB_ne_yes_iff re _).mpr hmiss) h
+
+/-- … and the validator says so DEFINITELY: the `pattern` keyword answers `some false` (not "out of
+fuel") on such a string. -/
+theorem pattern_miss_definite (defs : Defs) (r : Schema → Json → Option Bool) (re : Regex) (t : Text)
+    (hmiss : ¬ Search re (Fix16.utf16 t)) : validKw defs r (.pattern re) (.str t) = some false := by
+  simp only [validKw, (searchB_no_iff re _).mpr hmiss, R.toO]
+
+/-- non-vacuity: `^a$` has no match in `ab` -/
+example : ¬ Search (.mk [.mk [.mk (.sym .start) none, .mk (.char ⟨97, false⟩) none, .mk (.sym .stop) none]])
+    [97, 98] := by
+  rw [← searchB_no_iff]; decide
 
 end AasVerif.Props.C12
